@@ -97,7 +97,17 @@ func init() {
 				copy []byte
 			}
 			var views []view
+			var copies []view // what ReadBinary returned: a copy, the caller's for good (also across Release)
 			var fs []Finding
+			checkCopies := func(when string) {
+				for _, v := range copies {
+					if !bytes.Equal(v.b, v.copy) {
+						fs = append(fs, Finding{Kind: "oracle", Unit: "c13.reader", Class: "read-copy-changed-afterwards", Impl: when})
+						copies = nil
+						return
+					}
+				}
+			}
 			checkViews := func(when string) {
 				for _, v := range views {
 					if !bytes.Equal(v.b, v.copy) {
@@ -156,6 +166,9 @@ func init() {
 							fs = append(fs, Finding{Kind: "oracle", Unit: "c13.reader", Class: "readbinary-not-next-bytes", Impl: fmt.Sprintf("%x", b)})
 						}
 						consumed += arg
+						if len(b) > 0 {
+							copies = append(copies, view{b, append([]byte(nil), b...)})
+						}
 					}
 				case 'L':
 					outs = append(outs, "L")
@@ -169,6 +182,7 @@ func init() {
 					outs = append(outs, "X")
 				}
 				checkViews("after " + o)
+				checkCopies("after " + o)
 			}
 			impl := strings.Join(outs, " ")
 			mod := t.M.Call("rd_script", margs...)
